@@ -141,12 +141,15 @@ def codec_correspondence(ctx):
 def run(ctx):
     proof = common.proof_status(ctx)
     codec_correspondence(ctx)
+    # block-level correspondence of the cache-chain model the C07_cache_* theorems are about
+    from . import cachecorr
+    cachecorr.run(ctx, 16 if ctx.tier == "quick" else 400)
     tf = common.translator_failures(ctx, NEEDED)
     if tf:
         proof["problems"].append("translator could not translate: %s" % tf)
     b = [("empty-a-block", block_sweep) for _ in range(4 if ctx.tier == "quick" else 40)]
     b += [("cache-stress", cache_history) for _ in range(24 if ctx.tier == "quick" else 500)]
-    rule = ("record codec: adfPutCacheEntry/adfGetCacheEntry compiled C vs regenerated Gallina on valid records at every alignment, records ending at / past the 488-byte area, arbitrary bytes at the acceptance bounds; DIRCACHE volumes (flavours 4,5): directories grown to 8..45 entries with name lengths 4..30 (record lengths 30..134, blocks filled exactly / one past), "
+    rule = ("cache chain: raw cache blocks of two directories after every create / mkdir / delete / rename / comment / move / size update = Model/CacheChain.v; record codec: adfPutCacheEntry/adfGetCacheEntry compiled C vs regenerated Gallina on valid records at every alignment, records ending at / past the 488-byte area, arbitrary bytes at the acceptance bounds; DIRCACHE volumes (flavours 4,5): directories grown to 8..45 entries with name lengths 4..30 (record lengths 30..134, blocks filled exactly / one past), "
             "deletes at head/middle/tail, each block of a 3-block chain emptied record by record, renames to shorter/longer names, comments 0..79 bytes, size updates "
             "on flush; listing with useDirCache and decoder judgement at each dump; distinct = distinct script; non-trivial = chain of at least two cache blocks reached")
     nt = lambda L, r: sum(1 for l in L if l.startswith("open") or l.startswith("mkdir")) >= 12
